@@ -659,6 +659,32 @@ struct Extractor : public RecursiveASTVisitor<Extractor> {
         OS << "}";
     }
 
+    // optional (env SFX_TOUCHES_RE): emit a function only if its body names a member / callee matching the regex
+    struct TouchFinder : public RecursiveASTVisitor<TouchFinder> {
+        llvm::Regex& R;
+        bool hit = false;
+        TouchFinder(llvm::Regex& R) : R(R) {}
+        bool shouldVisitTemplateInstantiations() const { return false; }
+        bool VisitMemberExpr(MemberExpr* M) {
+            if (R.match(M->getMemberDecl()->getNameAsString())) hit = true;
+            return !hit;
+        }
+        bool VisitDeclRefExpr(DeclRefExpr* D) {
+            if (auto* V = dyn_cast<VarDecl>(D->getDecl()))
+                if (V->isLocalVarDeclOrParm()) return true;
+            if (R.match(D->getDecl()->getNameAsString())) hit = true;
+            return !hit;
+        }
+    };
+    bool touchesOk(const Stmt* Body) {
+        static const char* re = getenv("SFX_TOUCHES_RE");
+        if (!re || !*re) return true;
+        static llvm::Regex R(re);
+        TouchFinder T(R);
+        T.TraverseStmt(const_cast<Stmt*>(Body));
+        return T.hit;
+    }
+
     bool VisitFunctionDecl(FunctionDecl* FD) {
         if (!FD->doesThisDeclarationHaveABody()) return true;
         if (FD->isDependentContext()) return true;
@@ -669,6 +695,7 @@ struct Extractor : public RecursiveASTVisitor<Extractor> {
         if (!wantFile(Body->getBeginLoc())) return true;
         std::string q = FD->getQualifiedNameAsString();
         if (!NameRe.match(q)) return true;
+        if (!touchesOk(Body)) return true;
         emitFunction(FD, Body);
         return true;
     }
@@ -727,6 +754,7 @@ struct Extractor : public RecursiveASTVisitor<Extractor> {
         }
         if (!encl.empty() && !NameRe.match(encl)) return true;
         if (!lambdaVarTypeOk(MD->getBody())) return true;
+        if (!touchesOk(MD->getBody())) return true;
         emitFunction(MD, MD->getBody(), LE);
         return true;
     }
